@@ -439,13 +439,10 @@ fn try_main() -> Result<i32> {
                 }
             } else {
                 // build ninja target arguments, if necessary
-                let targets: Option<Vec<Utf8PathBuf>> = if let Selector::All = builders {
-                    if let Selector::All = apps {
-                        None
-                    } else {
-                        // TODO: filter by app
-                        None
-                    }
+                let targets: Option<Vec<Utf8PathBuf>> = if let (Selector::All, Selector::All) =
+                    (&builders, &apps)
+                {
+                    None
                 } else {
                     Some(
                         builds
